@@ -543,7 +543,8 @@ def run(ctx):
     growth.safe(ctx, growth.mk_steps)
     ctx.rule = ("G: every recursion tree of the wrapper for n<=7 (quick) x t2 in 2..4 with detector answers in "
                 "0..len-2 or None, replayed with a synthetic detector; T: 5 bundled detectors x curves (5<=n<=16) x "
-                "t1 in {0, 1e-3, 0.05, harvested tie} x t2 in minimum..6 with K/C tables over all slices.  "
+                "t1 in {0, 1e-3, 0.05, harvested tie} x t2 in minimum..6 with K/C tables over all slices; tiny-alphabet family: all 7770 non-constant "
+                "5-point curves with ordinates in {0..5} through Kneedle (t1 = 0, t2 = 3; exact ties of the difference curve).  "
                 "non-trivial: the recursion goes at least two levels deep (>= 2 knees or a child slice examined).  "
                 "scale: the 5 bundled detectors on production-size curves (n from 257 to 10^5 just above 2^8..2^16, 10^4, 10^5; convex "
                 "piecewise-linear chains with thousands of knees and thousands of ranges pending at once, straight prefix + convex tail, "
